@@ -5,5 +5,5 @@ n=$1; p=$2; shift 2
 git -C /tmp/wtx checkout -q --detach $(git -C /repo rev-parse HEAD) 2>/dev/null; git -C /tmp/wtx checkout -q -- . ; git -C /tmp/wtx clean -fdq
 git -C /tmp/wtx apply /verif/seeded/refactor/$n/patch.diff || { echo "patch does not apply"; exit 3; }
 mkdir -p /tmp/evalverif2; cp /verif/known-findings.txt /tmp/evalverif2/
-timeout 900 ${PCHECK:-/tmp/pcheck2} -prop $p -tier quick -repo /tmp/wtx -verif /tmp/evalverif2 "$@" 2>&1 | grep -v '^VIOLATION\|^KNOWN' | grep 'VIOLATED\|UNDECIDED\|BROKEN\|^property' | cut -c1-${W:-400}
+timeout 900 ${PCHECK:-/tmp/pcheck3} -prop $p -tier quick -repo /tmp/wtx -verif /tmp/evalverif2 "$@" 2>&1 | grep -v '^VIOLATION\|^KNOWN' | grep 'VIOLATED\|UNDECIDED\|BROKEN\|^property' | cut -c1-${W:-400}
 git -C /tmp/wtx checkout -q -- .
